@@ -17,3 +17,33 @@ claim("C07", "typestate/ownership rules over AST+CFG: lock dominates store, sing
       "it is a statement about every path of the code.", TRUST, "DESIGN.md section 4, C07")
 
 
+
+claim("C02", "F-INIT definite attribute assignment over the class hierarchy; must-pass-through (dominance) of the input check in every apply",
+      "Decides, for every LinearOperator subclass found in the package (population computed from the class hierarchy), the "
+      "structural obligations behind 'outputs live on the declared target / advertised modes are handled / input is checked': "
+      "required attributes are assigned on every constructor path and the domain/mode check dominates every use of the input. "
+      "The inner-product identity and numerical action are not decided.", TRUST, "DESIGN.md section 4, C02")
+
+claim("C21", "who-may-call scan of randomness sources; CFG pairing (push/pop on every exit); context-manager protocol check; def-use typestate of JAX keys",
+      "Decides the randomness discipline that makes a run a function of its seed: generators are only derived from the seed "
+      "stack or explicit keys, Context.__exit__ restores the stack on every path and never swallows exceptions, every push has "
+      "its pop on every loop/function exit, and the VI driver splits its carried key exactly once per iteration and stores the "
+      "unconsumed half. Bit-identity across vmap/lmap/JIT is numerical and not decided.", TRUST, "DESIGN.md section 4, C21")
+
+claim("C24", "file-system effect summary + dominance: temp-file/os.replace protocol, writer/reader agreement, liveness of loop-carried state",
+      "Decides that the state file the resume branch reads is only ever replaced atomically by a completely written and closed "
+      "temporary file, that the dumped tuple matches the unpacking on load (with the stripped config re-attached), and that "
+      "every loop-carried variable is part of the dump and stems from the same update. These hold for every crash point because "
+      "they are statements about all paths of the driver.", TRUST, "DESIGN.md section 4, C24")
+
+claim("C25", "file-system effect summary over the call graph of optimize_kl.py: read-set/write-set agreement, commit-marker ordering (reachability within an iteration), atomic-writer protocol, constant evaluation of the file-name strategy",
+      "Decides that every file the resume branch reads is written by the iteration the marker names under the same name "
+      "template, that no such file is written after the marker within an iteration, that marker/history/sample pickles are "
+      "written via temp file + rename, and that file names depend on the iteration index under every accepted save_strategy "
+      "(violated for 'latest': known finding).", TRUST, "DESIGN.md section 4, C25")
+
+claim("C27", "definite-assignment dataflow under enumerated valuations of never-rebound option parameters; push/pop pairing on the CFG; dominance of option validation",
+      "Decides for optimize_kl and its helpers that no local is used unassigned along any option-consistent path, that the "
+      "per-iteration seed sequence is popped on every exit of the iteration (continue, break, return), and that enumerated "
+      "options are validated before use. Correctness of the numbers produced by each combination is not decided.", TRUST,
+      "DESIGN.md section 4, C27")
